@@ -214,7 +214,9 @@ package weshnet
 //@ # every group context that exists is fully constructed (its stores, group and member device are set once, in the
 //@ # constructor, and never cleared) - a representation invariant of the type, assumed
 //@ pred gcAll() = forall g Ref {as(g, "*GroupContext").metadataStore} :: g != nil ==> gcOK(as(g, "*GroupContext"))
-//@ pred svcOK(s) = s != nil && unlocked(addr(s.lock)) && s.logger != nil && s.secretStore != nil && s.odb != nil && s.openedGroups != nil && s.contactRequestsManager != nil && gcAll()
+//@ # likewise every metadata store that exists has its member device, group and logger (set by its constructor)
+//@ pred msAll() = forall ms Ref {as(ms, "*MetadataStore").memberDevice} :: ms != nil ==> as(ms, "*MetadataStore").memberDevice != nil && as(ms, "*MetadataStore").group != nil && as(ms, "*MetadataStore").logger != nil
+//@ pred svcOK(s) = s != nil && unlocked(addr(s.lock)) && s.logger != nil && s.secretStore != nil && s.odb != nil && s.openedGroups != nil && s.contactRequestsManager != nil && gcAll() && msAll()
 //@     && s.refreshprocess != nil && s.swiper != nil && s.host != nil && unlocked(addr(s.muRefreshprocess))
 //@ func (*service).getAccountGroup
 //@   for C19, C16
